@@ -52,7 +52,7 @@ TABLE: dict[str, dict[str, str]] = {
     "C13": dict(cat="other", tech="data-dependence rule on the join search (traversal liveness) + marker producer/consumer agreement; flat programs (singles, ordered pairs; triples in the thorough tier) taken through compile -> decompile with every stage interpreted: ExplorerScript without jump, each operation once; typestate of jump roots across passes; stale edge ids; memo discipline",
                 text="Decides necessary conditions only: the common-next-vertex search advances along the graph's adjacency, and every end marker a pass attaches has a writer-side consumer that stops on the same id. Completeness of the structuring heuristics is not decided. R6 decides the property for the enumerated flat shapes (832 quick / 8 608 thorough), not for all flat programs.",
                 note="CPython ast.", ref="§4 C13"),
-    "C14": dict(cat="other", tech="sibling/writer-reader field agreement on serialize/deserialize/__init__, equality coverage, shape rule on rewrite_offsets; serialize/deserialize/rewrite_offsets interpreted on maps of an interpreted macro project under nine offset mappings",
+    "C14": dict(cat="other", tech="sibling/writer-reader field agreement on serialize/deserialize/__init__, equality coverage, shape rule on rewrite_offsets, no truth test of an int | None value; serialize/deserialize/rewrite_offsets interpreted on maps of an interpreted macro project under nine offset mappings",
                 text="Decides for all maps: field order and JSON keys agree between writer and reader, int keys and tuples are restored, SourceMap.__eq__ compares value-comparable entries, rewrite_offsets rebuilds both tables through the mapping and moves return addresses forward to the next surviving op.",
                 note="CPython ast; json module semantics (arrays come back as lists, keys as strings).", ref="§4 C14"),
     "C15": dict(cat="other", tech="tag-table agreement compile CLI / decompile CLI / docs, offset-renumbering rule, coroutine-id rule, docs example types vs. reader operations, exit paths; build_routines_json/read_routines interpreted on compiled programs; the __main__ blocks of both command-line modules interpreted on a virtual file system (argument vector, working directory, exit status, standard output/error, files written)",
